@@ -414,25 +414,35 @@ class SVGLexicalParser:
             elif cmd == "h":
                 while True:
                     value = self._number()
+                    if value is None:
+                        raise ValueError
                     self.parser.horizontal(value, relative=True)
                     if not self._more():
                         break
             elif cmd == "H":
                 while True:
                     value = self._number()
+                    if value is None:
+                        raise ValueError
                     self.parser.horizontal(value, relative=False)
                     if not self._more():
                         break
             elif cmd == "v":
                 while True:
                     value = self._number()
+                    if value is None:
+                        raise ValueError
                     self.parser.vertical(value, relative=True)
                     if not self._more():
                         break
             elif cmd == "V":
-                while self._more():
+                while True:
                     value = self._number()
+                    if value is None:
+                        raise ValueError
                     self.parser.vertical(value, relative=False)
+                    if not self._more():
+                        break
             elif cmd == "c":
                 while True:
                     coord1, coord2, coord3 = (
